@@ -47,6 +47,14 @@ def budget_of(e, scn):
     return max(mt, 1)
 
 
+def _mct_above(scn, budget):
+    """Is an explicit max_concurrent_tries configured that exceeds the retry budget?"""
+    try:
+        return int(float(scn.params.get("max_concurrent_tries"))) > budget
+    except (TypeError, ValueError):
+        return False
+
+
 def creation_key(e):
     """Executions belonging to the two-step creation of an object share this key (None otherwise)."""
     return e.get("object_root") or None
@@ -77,6 +85,7 @@ def c03(scn, x):
             out.append({"what": f"{short(ident)} executed {len(counted)} times in scope {sk} with budget {budget} "
                                 f"(workers {[e['w'] for e in counted][:12]} at t={[e['t'] for e in counted][:12]})",
                         "signature": {"clause": "budget", "retries": budget > 1,
+                                      "explicit_concurrency_above_budget": _mct_above(scn, budget),
                                       "kind": "creation-attempt" if ident.startswith("creation-attempt") else ("install" if creation else "test"),
                                       "excess_within_workers": ident.startswith("creation-attempt") or len(counted) - budget <= nworkers - 1}})
     # a setup test whose states were all found when first examined is not executed in that scope
